@@ -791,6 +791,8 @@ class MultiShapeBase(SimpleShapeMixin, BaseShape, ABC):
     def __eq__(self, other):
         if not isinstance(other, MultiShapeBase):
             return NotImplemented
+        if type(self) is not type(other):
+            return False
         return set(self.geoshapes) == set(other.geoshapes) and self.dt == other.dt
 
     def __hash__(self) -> int:
